@@ -40,7 +40,7 @@ STRUCT_OPS = ["add", "remove_idx", "remove_hash", "remove_all", "integrator", "r
 
 
 def gen_history(rng, small=False):
-    integ = rng.choice(["whfast", "ias15", "leapfrog", "mercurius", "saba", "janus", "bs", "trace", "whfast", "ias15"])
+    integ = rng.choice(["whfast", "ias15", "leapfrog", "mercurius", "saba", "janus", "trace", "whfast", "ias15"])   # bs + changing N corrupts the heap without any snapshot: kept only as a switch target
     spec = {"n": rng.choice([1, 2, 2, 3] if small else [1, 2, 3, 3, 4, 6]), "integrator": integ,
             "dt": rng.choice([0.05, 0.01, -0.03]), "t0": rng.choice([0.0, 0.0, 0.5, -2.0])}
     ops = []
@@ -57,6 +57,13 @@ def gen_history(rng, small=False):
                                                      ["safe_mode", 0], ["corrector", 3], ["epsilon", 1e-8], ["exit_max_distance", 50.0], ["boxsize", 100.0]]))
             elif u < 0.43:
                 ops.append(["signed_zero", rng.randint(0, 2)])
+            elif u < 0.455:
+                ops.append(["set_t", spec["t0"]])
+            elif u < 0.48:
+                ops.append(["set_p", rng.randint(0, 3), rng.choice(P_MEMBERS), None])
+            elif u < 0.51:
+                mv = rng.choice([("lrescale", -1.0), ("lrescale", 2.5), ("testparticle", 0)])
+                ops.append(["set_vc", 0, mv[0], mv[1]])
             else:
                 k = rng.choice(STRUCT_OPS)
                 if k == "add":
@@ -87,6 +94,31 @@ DIRECTED = [
     # known finding: a coordinate changes from +0.0 to -0.0
     {"kind": "hist", "spec": {"n": 2, "integrator": "whfast"}, "ops": [["snap"], ["signed_zero", 1], ["snap"]]},
 ]
+
+
+VC_MEMBERS = [("order", 2), ("index", 1), ("testparticle", 0), ("index_1st_order_a", 1), ("index_1st_order_b", 1), ("lrescale", -1.0)]
+P_MEMBERS = ["x", "y", "z", "vx", "vy", "vz", "ax", "ay", "az", "m", "r", "last_collision"]
+# exactly one member of one persisted record changes between two snapshots (nothing else happens in between)
+for _integ in ("whfast", "ias15"):
+    for _m, _v in VC_MEMBERS:
+        DIRECTED.append({"kind": "hist", "spec": {"n": 2, "integrator": _integ}, "ops": [["add_variation"], ["step", 1], ["snap"], ["set_vc", 0, _m, _v], ["snap"]]})
+DIRECTED.append({"kind": "hist", "spec": {"n": 2, "integrator": "ias15"}, "ops": [["init_megno"], ["step", 1], ["snap"], ["set_vc", 0, "lrescale", -1.0], ["snap"]]})
+for _m in P_MEMBERS:
+    DIRECTED.append({"kind": "hist", "spec": {"n": 3, "integrator": "whfast"}, "ops": [["step", 1], ["snap"], ["set_p", 1, _m, None], ["snap"]]})
+DIRECTED.append({"kind": "hist", "spec": {"n": 3, "integrator": "whfast"}, "ops": [["step", 1], ["snap"], ["set_p", 2, "hash", 12345], ["snap"]]})
+DIRECTED.append({"kind": "hist", "spec": {"n": 3, "integrator": "whfast"}, "ops": [["snap"], ["set_p", 0, "last_collision", 1.5], ["snap"]]})
+# automatic variational rescaling: only lrescale (and the variational particles) change
+for _integ in ("ias15", "whfast", "leapfrog"):
+    DIRECTED.append({"kind": "hist", "spec": {"n": 2, "integrator": _integ}, "ops": [["add_variation"], ["step", 1], ["snap"], ["big_var"], ["step", 1], ["snap"], ["step", 1], ["snap"]]})
+# a snapshot k >= 2 taken at a time bit-identical to snapshot 0's while snapshot k-1 has another time (its delta has no t field:
+# the index must report snapshot 0's time, not the previous snapshot's)
+for _integ, _t0 in (("whfast", 0.5), ("leapfrog", 0.0), ("ias15", -2.0)):
+    DIRECTED.append({"kind": "hist", "spec": {"n": 2, "integrator": _integ, "t0": _t0},
+                     "ops": [["snap"], ["step", 2], ["snap"], ["set_t", _t0], ["snap"], ["step", 1], ["snap"], ["set_t", _t0], ["snap"]]})
+DIRECTED.append({"kind": "hist", "spec": {"n": 2, "integrator": "whfast", "dt": 0.05, "t0": 0.0},
+                 "ops": [["snap"], ["integrate", 0.1, 1], ["snap"], ["setting", "dt", -0.05], ["integrate", -0.1, 1], ["set_t", 0.0], ["snap"]]})
+# correspondence (bytes through Coq) also sees one-member changes
+CORR_EXTRA = [DIRECTED[7], DIRECTED[12], DIRECTED[10], DIRECTED[-5], DIRECTED[21], DIRECTED[-4], DIRECTED[-1]]
 
 
 def gen_auto(rng):
@@ -215,12 +247,14 @@ def correspondence(ctx, libdir, results, jobs, tag):
 def run(ctx):
     libdir = ctx.lib()
     layout_obligation(ctx)
+    # the member lists compared by reb_particle_diff / the var_config branch are regenerated from the current source
+    ctx.regen("translate_descriptors.py")
     proved = ctx.prove("C06", extra_targets=["C06/Run.vo"])
     rng = ctx.rng
 
     # ---- correspondence histories (bytes exchanged with Coq): small N
-    ncorr = ctx.scale(14, 80)
-    cjobs = [dict(copy.deepcopy(d), bytes=True) for d in DIRECTED[:5]]
+    ncorr = ctx.scale(20, 80)
+    cjobs = [dict(copy.deepcopy(d), bytes=True) for d in DIRECTED[:5] + CORR_EXTRA]
     while len(cjobs) < ncorr:
         cjobs.append(dict(gen_history(rng, small=True), bytes=True))
     # ---- searcher histories (library only)
@@ -233,11 +267,11 @@ def run(ctx):
     ctx.log("running %d histories against the library (%d child processes)" % (len(alljobs), len(batches)))
     results = []
     oos = []
-    for b, r in zip(batches, run_jobs(libdir, batches, timeout=90)):
+    for b, r in zip(batches, run_jobs(libdir, batches, timeout=45)):
         if not isinstance(r, list):
             # the driver process died or hung: find the culprit one by one
             for job in b:
-                rr = run_jobs(libdir, [[job]], timeout=40)[0]
+                rr = run_jobs(libdir, [[job]], timeout=12)[0]
                 if isinstance(rr, list):
                     results.append(rr[0])
                     continue
@@ -246,7 +280,7 @@ def run(ctx):
                 key = "ops" if job["kind"] == "hist" else "chunks"
                 bare = dict(copy.deepcopy(job), bytes=False)
                 bare[key] = [o for o in job[key] if o != ["snap"] and o != "snap"]
-                r2 = run_jobs(libdir, [[bare]], timeout=40)[0] if job["kind"] == "hist" else rr
+                r2 = run_jobs(libdir, [[bare]], timeout=12)[0] if job["kind"] == "hist" else rr
                 if not isinstance(r2, list) and job["kind"] == "hist":
                     oos.append({"status": str(rr[0]), "history_without_snapshots": bare[key], "stderr": rr[1][-120:]})
                 else:
@@ -255,6 +289,16 @@ def run(ctx):
         else:
             results += r
     ctx.extra["crashes_or_hangs_not_involving_snapshots"] = oos[:5]
+    # ---- more than 1024 snapshots (capacity growth of the index arrays): implementation-limit regression test
+    mr = run_jobs(libdir, [[{"kind": "many", "n": 1100}]], timeout=120)[0]
+    m0 = mr[0] if isinstance(mr, list) else {"died": str(mr)}
+    ctx.case(key=("many", 1100), sample={"many_snapshots": m0} if len(ctx.samples) < 6 else None)
+    ctx.extra["many_snapshots"] = m0
+    if m0.get("nblobs") != 1100 or m0.get("last_t") != m0.get("expected_last_t") or m0.get("bad_index_times") or \
+            m0.get("t_at_1030") != m0.get("expected_t_at_1030"):
+        ctx.violation("many-snapshots", {"job": {"kind": "many", "n": 1100}, "result": m0, "how": "tools/c06_driver.py job_many"}, True,
+                      "property=C06 an archive with 1100 snapshots (N=1, leapfrog) reads back nblobs=%s, last t=%s (expected 1100, %s)"
+                      % (m0.get("nblobs"), m0.get("last_t"), m0.get("expected_last_t")))
     cres = results[:len(cjobs)]
     ctx.log("histories done; evaluating the model in Coq on %d histories" % len(cjobs))
     n, bad = correspondence(ctx, libdir, cres, cjobs, "corr")
